@@ -45,7 +45,7 @@ var (
 func bodyBytes(kind string, seed int64) []byte {
 	n := 0
 	switch kind {
-	case "cl_small", "chunked_small":
+	case "cl_small", "chunked_small", "chunked_trailer":
 		n = 10
 	case "cl_32k":
 		n = 32768
@@ -99,6 +99,12 @@ func relayBackend(w http.ResponseWriter, r *http.Request) {
 		framing = fmt.Sprintf("cl:%d", r.ContentLength)
 	}
 	ex.seen = &reqSeen{Line: r.Method + " " + r.RequestURI, Body: digest(body), Framing: framing, Hdrs: headerSet(r.Header, "x-verif-")}
+	// trailer fields that arrived behind the body are part of what the backend received
+	for k, vs := range r.Trailer {
+		for _, v := range vs {
+			ex.seen.Hdrs = append(ex.seen.Hdrs, hv{N: "trailer:" + strings.ToLower(k), V: v})
+		}
+	}
 
 	// response
 	switch c.d(7) {
@@ -237,6 +243,9 @@ func buildRequest(c *relayCase, key, targetPrefix string) []byte {
 		fmt.Fprintf(&b, "Content-Type: application/octet-stream\r\nContent-Length: %d\r\n\r\n", len(body))
 		b.Write(body)
 	default:
+		if kind == "chunked_trailer" {
+			b.WriteString("Trailer: X-Req-Sum\r\n")
+		}
 		b.WriteString("Content-Type: application/octet-stream\r\nTransfer-Encoding: chunked\r\n\r\n")
 		for off := 0; off < len(body); off += 40000 {
 			end := off + 40000
@@ -247,7 +256,12 @@ func buildRequest(c *relayCase, key, targetPrefix string) []byte {
 			b.Write(body[off:end])
 			b.WriteString("\r\n")
 		}
-		b.WriteString("0\r\n\r\n")
+		if kind == "chunked_trailer" {
+			// the body is followed by a trailer field the header block announced
+			b.WriteString("0\r\nX-Req-Sum: sum-123\r\n\r\n")
+		} else {
+			b.WriteString("0\r\n\r\n")
+		}
 	}
 	return b.Bytes()
 }
